@@ -280,6 +280,50 @@ Definition cooldown_active (w : winp) : bool :=
 Definition may_write (w : winp) : bool :=
   w_readable w && posting_rules w && limits_ok w && w_loginok w && negb (cooldown_active w).
 
+(* ------------------------------------------------------------------ the site configuration and the writer's uid *)
+(* isReadonlyBoard: the read-only system boards are CONFIGURATION values — ptttype.BN_SECURITY / BN_ALLPOST, set by
+   ptttype.InitConfig -> setBoards from the ini file (ToBoardID: the configured name copied into a 13-byte BoardID_t) —
+   compared with the board's name by types.Cstrcasecmp (both lowered byte by byte, then compared as C strings) *)
+Definition BOARDID_SZ : nat := 13.   (* BoardID_t = [IDLEN+1]byte *)
+Definition tolower (c : Z) : Z := if (65 <=? c) && (c <=? 90) then c + 32 else c.
+Definition cstrcasecmp (a b : list Z) : Z := cstrcmp (map tolower a) (map tolower b).
+Definition is_readonly_board (bn_security bn_allpost name : list Z) : bool :=
+  (cstrcasecmp (fixlen BOARDID_SZ name) (fixlen BOARDID_SZ bn_security) =? 0) ||
+  (cstrcasecmp (fixlen BOARDID_SZ name) (fixlen BOARDID_SZ bn_allpost) =? 0).
+
+(* SHM->cooldowntime: one packed word per user, addressed by uid.ToUIDInStore() = uid - 1 for EVERY uid of the build
+   (1 .. MAX_USERS: 50 in the default build, 2 000 000 with -tags docker). The store is kept as the list of plantings,
+   latest first; a word is (cool-down time - now, post counter); a slot never planted holds 0 = long expired *)
+Definition uid_slot (uid : Z) : Z := uid - 1.
+Definition cd_store := list (Z * (Z * Z)).
+Definition cd_set (s : cd_store) (slot : Z) (v : Z * Z) : cd_store := (slot, v) :: s.
+Fixpoint cd_get (s : cd_store) (slot : Z) : Z * Z :=
+  match s with
+  | [] => (-1, 0)
+  | (k, v) :: r => if k =? slot then v else cd_get r slot
+  end.
+(* CooldownTimeOf(uid) - now and PosttimesOf(uid) *)
+Definition cd_of_uid (s : cd_store) (uid : Z) : Z * Z := cd_get s (uid_slot uid).
+(* the plantings of the other users on the wire: uid, cd_rel, posttimes, ... in planting order *)
+Fixpoint plant_others (s : cd_store) (l : list Z) (fuel : nat) {struct fuel} : cd_store :=
+  match fuel with
+  | O => s
+  | S f => match l with
+           | u :: c :: p :: r => plant_others (cd_set s (uid_slot u) (c, p)) r f
+           | _ => s
+           end
+  end.
+Fixpoint others_ok (uid maxusers : Z) (l : list Z) (fuel : nat) {struct fuel} : bool :=
+  match fuel with
+  | O => match l with [] => true | _ => false end
+  | S f => match l with
+           | [] => true
+           | u :: c :: p :: r => (1 <=? u) && (u <=? maxusers) && negb (u =? uid) && (0 <=? p) && (p <=? 15) &&
+                                 (-100000 <=? c) && (c <=? 100000) && others_ok uid maxusers r f
+           | _ => false
+           end
+  end.
+
 (* ------------------------------------------------------------------ wire *)
 Definition vcode (v : verdict) : Z := match v with Accept => 0 | Refuse c => c end.
 
@@ -311,9 +355,17 @@ Definition out (r : verdict * state) : list Z :=
   ST_OK :: vcode (fst r) :: delta (snd r) ++ [match fst r with Accept => 0 | Refuse _ => zb (frame_changed (snd r)) end].
 
 (* the four write operations and the rule pieces on one row; [aowner] is isFileOwner's answer's first conjunct *)
-Definition run_row (op ulevel o18 logindays badpost regbefore inbm fr ban cd_rel pt bsel battr blevel limlogins limbad nuser aexists : Z)
+(* [set_readonly]: the same facts, with "the board is one of the read-only system boards" decided by the caller *)
+Definition set_readonly (w : winp) (ro : bool) : winp :=
+  mk_winp (w_readable w) (w_sysop w) (w_basic w) (w_post w) (w_loginok w) (w_violatelaw w) (w_moderator w) (w_friend w) (w_banned w)
+          ro (w_default w) (w_guestpost w) (w_hidden w) (w_restrictedpost w) (w_lvl_violatelaw w) (w_extra0 w) (w_hasextra w)
+          (w_overlimit w) (w_cd_expired w) (w_brd_cooldown w) (w_pt_full w) (w_flood w).
+
+Definition run_row_k (ro : option bool)
+                   (op ulevel o18 logindays badpost regbefore inbm fr ban cd_rel pt bsel battr blevel limlogins limbad nuser aexists : Z)
                    (owner_ok : bool) (sattr slevel slimlogins slimbad sban sinbm sfr : Z) : list Z :=
-  let w := winp_of ulevel (bz o18) (bz inbm) (bz fr) ban cd_rel pt logindays badpost bsel battr blevel limlogins limbad nuser in
+  let w0 := winp_of ulevel (bz o18) (bz inbm) (bz fr) ban cd_rel pt logindays badpost bsel battr blevel limlogins limbad nuser in
+  let w := match ro with None => w0 | Some b => set_readonly w0 b end in
   let a := mk_aux (bz aexists) (is_owner owner_ok true (bz regbefore)) false false false
                   (has battr BRD_VOTEBOARD) (has battr BRD_NORECOMMEND) false in
   (* CrossPost's source board: the fixture board Note as planted by the src group *)
@@ -328,9 +380,39 @@ Definition run_row (op ulevel o18 logindays badpost regbefore inbm fr ban cd_rel
                         (* the same facts about the source board of a cross-post *)
                         zb (w_readable ws); zb (posting_rules ws); zb (limits_ok ws)]
   else [ST_BADCASE].
+Definition run_row := run_row_k None.
+
+(* op 9: a row against a target board chosen by name, under a site configuration naming the read-only system boards.
+   The board group's bsel says whether the target is the default board (2) or not (0); read-only comes from the names *)
+Definition name_ok (l : list Z) : bool := bytes_ok l && (1 <=? lenZ l) && (lenZ l <=? 12) && forallb (fun c => negb (c =? 0)) l.
+Definition run_configured (iop : Z) (sec allpost target : list Z)
+                          (ulevel o18 logindays badpost regbefore inbm fr ban cd_rel pt bsel battr blevel limlogins limbad nuser aexists aowner : Z) : list Z :=
+  if (1 <=? iop) && (iop <=? 5) && name_ok sec && name_ok allpost && name_ok target && ((bsel =? 0) || (bsel =? 2)) && ((aowner =? 0) || (aowner =? 1))
+  then run_row_k (Some (is_readonly_board sec allpost target))
+                 iop ulevel o18 logindays badpost regbefore inbm fr ban cd_rel pt bsel battr blevel limlogins limbad nuser aexists (bz aowner) 0 0 0 0 0 0 0
+  else [ST_BADCASE].
+
+(* op 10: a row by the caller acting as user number uid, after cool-down words of other users were planted; the row's own
+   (cd_rel, pt) is planted last, in the caller's slot, and the decision reads the store at the caller's slot *)
+Definition run_as_uid (iop uid maxusers : Z) (others : list Z)
+                      (ulevel o18 logindays badpost regbefore inbm fr ban cd_rel pt bsel battr blevel limlogins limbad nuser aexists aowner : Z) : list Z :=
+  if (1 <=? iop) && (iop <=? 5) && (1 <=? uid) && (uid <=? maxusers) && others_ok uid maxusers others (length others) && ((aowner =? 0) || (aowner =? 1))
+  then let s := cd_set (plant_others [] others (length others)) (uid_slot uid) (cd_rel, pt) in
+       let own := cd_of_uid s uid in
+       match run_row iop ulevel o18 logindays badpost regbefore inbm fr ban (fst own) (snd own) bsel battr blevel limlogins limbad nuser aexists (bz aowner) 0 0 0 0 0 0 0 with
+       | st :: r => if st =? ST_OK then st :: r ++ [0] else st :: r      (* + "a cool-down word of another user changed": never *)
+       | [] => []
+       end
+  else [ST_BADCASE].
 
 Definition run_case (args : list (list Z)) : list Z :=
   match args with
+  | [[op]; [iop]; sec; allpost; target; [ulevel; o18; logindays; badpost; regbefore]; [inbm; fr; ban; cd_rel; pt]; [bsel; battr; blevel; limlogins; limbad; nuser]; [aexists; aowner]] =>
+      if op =? 9 then run_configured iop sec allpost target ulevel o18 logindays badpost regbefore inbm fr ban cd_rel pt bsel battr blevel limlogins limbad nuser aexists aowner
+      else [ST_BADCASE]
+  | [[op]; [iop]; [uid; maxusers]; others; [ulevel; o18; logindays; badpost; regbefore]; [inbm; fr; ban; cd_rel; pt]; [bsel; battr; blevel; limlogins; limbad; nuser]; [aexists; aowner]] =>
+      if op =? 10 then run_as_uid iop uid maxusers others ulevel o18 logindays badpost regbefore inbm fr ban cd_rel pt bsel battr blevel limlogins limbad nuser aexists aowner
+      else [ST_BADCASE]
   | [[op]; [ulevel; o18; logindays; badpost; regbefore]; [inbm; fr; ban; cd_rel; pt]; [bsel; battr; blevel; limlogins; limbad; nuser]; [aexists; aowner]] =>
       if (aowner =? 0) || (aowner =? 1) then
         run_row op ulevel o18 logindays badpost regbefore inbm fr ban cd_rel pt bsel battr blevel limlogins limbad nuser aexists (bz aowner) 0 0 0 0 0 0 0
